@@ -545,6 +545,11 @@ def plugin_trees(r):
         b = a + 1 if a == 0 else a - 1
     out.append((T([can("Pa", "Pa", a), can("Pb", "Pb", b)]), "can-distinct-ids"))
     out.append((T([can("Pa", "Pa", a), can("Pb", "Pb", a)]), "can-same-id-same-bus"))
+    # identifiers that agree in their low 11 / 29 bits (or differ only in the 'extended frame' flag bit 31) are
+    # different identifiers
+    far = a + r.choice([1 << 11, 1 << 29, 1 << 31, 0x20000000, 0x80000000, 1 << 32])
+    out.append((T([can("Pa", "Pa", a), can("Pb", "Pb", far)]), "can-ids-equal-in-their-low-bits"))
+    out.append((T([can("Pa", "Pa", far), can("Pb", "Pb", far)]), "can-same-wide-id"))
     out.append((T([can("Pa", "Pa", a, "b1"), can("Pb", "Pb", a, "b2")]), "can-same-id-different-buses"))
     out.append((T([can("Pa", "Pa", a), can("Pb", "Pb", a, proto="uart")]), "can-and-noncan-same-id"))
     out.append((T([can("Pa", "Pa", a), can("Pb", "Pb", a, proto="uart"), can("Px", "Pb", a, proto="spi")]), "noncan-same-ids"))
